@@ -12,6 +12,7 @@ import (
 	"github.com/protobom/protobom/pkg/sbom"
 	"github.com/protobom/protobom/pkg/storage"
 	"github.com/sirupsen/logrus"
+	"google.golang.org/protobuf/encoding/protowire"
 	"google.golang.org/protobuf/proto"
 
 	"mcverif/vfs"
@@ -103,6 +104,13 @@ func docVariant(kind, id string) *sbom.Document {
 		d.Metadata.Name = map[string]string{"e1": "alpha", "e2": "omega"}[kind]
 		d.NodeList.Nodes = []*sbom.Node{{Id: "n", Name: map[string]string{"e1": "abc", "e2": "xyz"}[kind]}}
 		d.NodeList.RootElements = []string{"n"}
+	case "unk":
+		// a document written by a newer schema: unknown fields on the document and on a node
+		d.Metadata.Name = "carries-unknown-fields"
+		n := &sbom.Node{Id: "n", Name: "node"}
+		n.ProtoReflect().SetUnknown(protowire.AppendVarint(protowire.AppendTag(nil, 999, protowire.VarintType), 7))
+		d.NodeList.Nodes = []*sbom.Node{n}
+		d.ProtoReflect().SetUnknown(protowire.AppendString(protowire.AppendTag(nil, 1000, protowire.BytesType), "future"))
 	case "d3":
 		d.Metadata.Name = "three"
 		d.NodeList.Nodes = []*sbom.Node{{Id: "a"}, {Id: "b"}, {Id: "c", Description: strings.Repeat("long description ", 20)}}
